@@ -199,6 +199,18 @@ def run(ctx, res):
                        "host I/O (log, print, sleep) has no guest-visible effect"]
     res.not_decided = ["'executes its instructions in order until PC equals the exit address' as a statement about whole executions: it is the closure of the iteration facts",
                        "independence from host thread scheduling of the socket workers"]
+    # the exit test compares the whole 32-bit PC field: every instruction must leave its upper byte clear (instruction-level analysis)
+    try:
+        import isarun
+        agg_ = isarun.run(facts.path)
+        for f_ in agg_["findings"].values():
+            if "C13" in f_["props"]:
+                res.ob(False)
+                res.finding("exit|%s" % f_["key"], f_["msg"], f_["witness"])
+        res.ob(True, agg_["trace_kinds"].get("return", 0))
+        res.inventory["instruction_traces_checked_for_pc_upper_byte"] = agg_["trace_kinds"].get("return", 0)
+    except Exception as e_:      # noqa
+        res.errors.append("instruction-level analysis (PC upper byte): %s" % str(e_)[:300])
     I, ip, outs, info, names, body, g, busfi = analyse(facts)
     Mx = bv.M
     if ip.unknown_callees:
